@@ -3,6 +3,7 @@
 #include "/repo/src/djinterop/engine/encode_decode_utils.cpp"
 using namespace djinterop::engine;
 extern "C" uint64_t verif_len();
+extern "C" uint64_t verif_zlib_finished();
 extern "C" uint64_t verif_zlib_check(const void* out, uint64_t out_len, uint64_t src_len, uint64_t skip);
 
 extern "C" void h_zlib_uncompress()
@@ -22,7 +23,8 @@ extern "C" void h_zlib_uncompress()
 }
 extern "C" void h_zlib_compress()
 {
-    auto raw = verif::bytes(verif_len(), "u");
+    // (the contract stub never looks at the content: long inputs are zero-filled instead of 16 Ki symbolic bytes)
+    auto raw = verif_len() <= 64 ? verif::bytes(verif_len(), "u") : std::vector<std::byte>(verif_len());
     auto out = zlib_compress(raw);     // documented not to fail except for deflateInit
     verif_reach("returned");
     verif_assert(out.size() >= 4, "zlib_compress output lacks the 4-byte length prefix");
@@ -30,6 +32,7 @@ extern "C" void h_zlib_compress()
     verif_assert(n == raw.size(), "length prefix is not the big-endian uncompressed size");
     uint64_t consumed = verif_zlib_check(out.data(), out.size(), raw.size(), 4);
     verif_assert(consumed == raw.size(), "zlib_compress did not feed every input byte to deflate exactly once");
+    verif_assert(verif_zlib_finished() == 1, "zlib_compress returned a stream that was never finished (no deflate(Z_FINISH) call returned Z_STREAM_END): the blob cannot be inflated");
 }
 
 #ifdef VERIF_NATIVE
@@ -53,6 +56,15 @@ extern "C" void h_zlib_native_window()
     blob.shrink_to_fit();
     auto out = zlib_uncompress(blob);
     verif_assert(out == payload, "native round trip");
+}
+extern "C" void h_zlib_native_roundtrip()
+{
+    // compress / uncompress through the real libz at the counterexample's length (run parameter len)
+    std::vector<std::byte> payload(verif_len());
+    for (size_t i = 0; i < payload.size(); ++i) payload[i] = (std::byte)(i * 7 + i / 3);
+    auto blob = zlib_compress(payload);
+    auto out = zlib_uncompress(blob);
+    verif_assert(out == payload, "native round trip at the length of the counterexample");
 }
 extern "C" void h_zlib_native_truncated()
 {
